@@ -51,6 +51,11 @@ fn $name(s: &Start) {
     kani::assert(a.halted == b.halted, concat!("C02", ".state halted"));
     kani::assert(a.pending_prefix == b.pending_prefix && a.int_inhibit == b.int_inhibit,
         concat!("C02", ".state pending prefix / interrupt shadow"));
+    // C05's "interrupted exactly once per frame" needs INT to be sampled after every instruction the Z80
+    // samples it after: a shadow left set where the Z80 clears it lets a run of such instructions hide
+    // the 32-T pulse (one direction only: a shadow cleared too early does not lose the frame interrupt)
+    kani::assert(!(a.int_inhibit && !b.int_inhibit),
+        "C02/C05.state no instruction leaves the interrupt shadow set where the Z80 clears it");
     kani::assert(a.memptr == b.memptr, concat!($tag, ".state MEMPTR"));
     kani::assert(ignore_q || a.q == b.q, concat!($tag, ".state Q"));
     kani::assert(o.ok_data, concat!($tag, ".trace memory/port transfers (order, address, data)"));
